@@ -207,30 +207,38 @@ class InotifyEmitter(EventEmitter):
 
         # Always listen to delete self
         event_mask = InotifyConstants.IN_DELETE_SELF
+        if self.watch.is_recursive:
+            # Directories that are created, moved in or renamed must be noticed to keep following the tree.
+            event_mask |= InotifyConstants.IN_MOVE | InotifyConstants.IN_CREATE
 
-        for cls in self._event_filter:
-            if cls in {DirMovedEvent, FileMovedEvent}:
-                event_mask |= InotifyConstants.IN_MOVE
-            elif cls in {DirCreatedEvent, FileCreatedEvent}:
-                event_mask |= InotifyConstants.IN_MOVE | InotifyConstants.IN_CREATE
-            elif cls is DirModifiedEvent:
-                event_mask |= (
-                    InotifyConstants.IN_MOVE
-                    | InotifyConstants.IN_ATTRIB
-                    | InotifyConstants.IN_MODIFY
-                    | InotifyConstants.IN_CREATE
-                    | InotifyConstants.IN_CLOSE_WRITE
-                )
-            elif cls is FileModifiedEvent:
-                event_mask |= InotifyConstants.IN_ATTRIB | InotifyConstants.IN_MODIFY
-            elif cls in {DirDeletedEvent, FileDeletedEvent}:
-                event_mask |= InotifyConstants.IN_DELETE
-            elif cls is FileClosedEvent:
-                event_mask |= InotifyConstants.IN_CLOSE_WRITE
-            elif cls is FileClosedNoWriteEvent:
-                event_mask |= InotifyConstants.IN_CLOSE_NOWRITE
-            elif cls is FileOpenedEvent:
-                event_mask |= InotifyConstants.IN_OPEN
+        def wanted(*classes: type[FileSystemEvent]) -> bool:
+            # A filter class selects itself and, if it is a base class, all its subclasses.
+            return any(issubclass(c, cls) for c in classes for cls in self._event_filter)  # type: ignore[union-attr]
+
+        if wanted(DirMovedEvent, FileMovedEvent):
+            event_mask |= InotifyConstants.IN_MOVE
+        if wanted(DirCreatedEvent, FileCreatedEvent):
+            event_mask |= InotifyConstants.IN_MOVE | InotifyConstants.IN_CREATE
+        if wanted(DirModifiedEvent):
+            event_mask |= (
+                InotifyConstants.IN_MOVE
+                | InotifyConstants.IN_ATTRIB
+                | InotifyConstants.IN_MODIFY
+                | InotifyConstants.IN_CREATE
+                | InotifyConstants.IN_DELETE
+                | InotifyConstants.IN_CLOSE_WRITE
+            )
+        if wanted(FileModifiedEvent):
+            event_mask |= InotifyConstants.IN_ATTRIB | InotifyConstants.IN_MODIFY
+        if wanted(DirDeletedEvent, FileDeletedEvent):
+            # An entry moved out of the watched tree is reported as deleted.
+            event_mask |= InotifyConstants.IN_MOVE | InotifyConstants.IN_DELETE
+        if wanted(FileClosedEvent):
+            event_mask |= InotifyConstants.IN_CLOSE_WRITE
+        if wanted(FileClosedNoWriteEvent):
+            event_mask |= InotifyConstants.IN_CLOSE_NOWRITE
+        if wanted(FileOpenedEvent):
+            event_mask |= InotifyConstants.IN_OPEN
 
         return event_mask
 
